@@ -152,6 +152,24 @@ def literal_modules(start, tier):
             mods.append(Module(f'm{n:04d}', f'literal {lit} -> {ty} via `Default{form.format(lit)}` shape{shape}', body, [h],
                                sample=dict(type_definition=decl), functions=FUNCTIONS, classes=cls))
             n += 1
+    # `new` with an explicit boolean: `new = false` / `new(false)` generate no `new()` (the user's own inherent `new` must not clash),
+    # `new = true` / `new(true)` generate it
+    for form in ['new = false', 'new(false)', 'new = true', 'new(true)']:
+        off = 'false' in form
+        own = 'impl Ty { pub fn new() -> Self { Ty { a: 9, b: 1 } } }\n' if off else ''
+        decl = f'#[derive(Educe)]\n#[educe(Default({form}))]\npub struct Ty {{\n    pub a: u8,\n    #[educe(Default = 7)]\n    pub b: u8,\n}}\n' + own
+        h = Harness('h_new', unwind=4, covers=['reached'])
+        want = '(9, 1)' if off else '(0, 7)'
+        body = decl + h.attrs() + f'''pub fn h_new() {{
+    let d = <Ty as Default>::default();
+    let n = Ty::new();
+    kani::cover!(true, "reached");
+    assert!((d.a, d.b) == (0, 7), "default() is not the field-wise default");
+    assert!((n.a, n.b) == {want}, "`{form}`: new() is not the expected function");
+}}
+'''
+        mods.append(Module(f'm{n:04d}', f'`Default({form})`: ' + ("no new() generated (user's own inherent new)" if off else 'new() generated'), body, [h], sample=dict(type_definition=decl), functions=FUNCTIONS))
+        n += 1
     return mods
 
 
@@ -199,6 +217,8 @@ def configs(tier, seed):
     if tier == 'quick':
         rng = random.Random(seed * 17 + 2)
         core = out[::3]
+        # the single-field shortcuts of every handler (no designation needed) are always in: with and without an expression
+        core += [o for o in out if o not in core and all(len(fl) == 1 for _, fl in o[1]) and len(o[1]) == 1]
         extra = rng.sample(out, 10)
         out = core + [e for e in extra if e not in core]
     return out
